@@ -1,6 +1,6 @@
 SPECIFICATION Spec
 CONSTANTS
-  Kinds = {"good", "noname", "badlabel", "badglyph", "compressed", "badsilf", "nocmap", "nogloc", "badlz4", "badlz4s", "hiddenfeat", "badfeat", "badfeat2", "badsill", "underflow", "emptyname", "emptyglyf"}
+  Kinds = {"good", "noname", "badlabel", "badglyph", "compressed", "badsilf", "nocmap", "nogloc", "badlz4", "badlz4s", "hiddenfeat", "badfeat", "badfeat2", "badsill", "underflow", "emptyname", "emptyglyf", "fmt12", "charisfast"}
   OptSet = {0, 1, 2, 3, 4, 5, 6, 7}
   Srcs = {"ops"}
   Texts = {0, 1}
